@@ -13,7 +13,7 @@ SPEC = {
     "rule": "case = one history (rapid t.Repeat over Write(chunk)/Read(n)/Clone/Reset/Sum on up to 4 live copies) of one of 14 hash/XOF entry points "
             "(+ K12 with lanes 1/2/4 white-box), one (length, split) pair of the two-chunk sweep, one 1/2/4-way permutation input, one expander call, or one Ascon (key, nonce, ad, pt, dst, alteration) tuple. "
             "non-trivial = a checked Read/Sum whose lineage has >= 2 write chunks with a rate or 8192-byte boundary inside (or at the end of) a chunk, or a Clone/Reset in its lineage; "
-            "a two-chunk sweep pair with 0 < split < length; every permutation case; an expander call with an oversize DST or more than one output block; "
+            "a two-chunk sweep pair with 0 < split < length; a one-shot helper call on a message longer than one block; every permutation case; an expander call with an oversize DST or more than one output block; "
             "an Ascon case sealed/opened in place or appended to a non-empty dst, or an altered (key|nonce|ad|ct|tag) that was rejected. distinct by FNV-64 of the lineage's operation sequence (op kinds, lengths, data) resp. of the inputs",
     "assumptions": COMMON_ASSUME + [
         "ref/keccak (lane-level Keccak-p from FIPS 202, cross-checked at start-up against a bit-level Keccak-p, the Keccak-team ShortMsgKAT subset, x/crypto/sha3 and the RFC 9861 TurboSHAKE/KT128 vectors) defines TurboSHAKE and KangarooTwelve; circl's k12 package names draft -10, whose function is the KT128 of RFC 9861",
